@@ -617,6 +617,13 @@ class Interp:
             return False
         if isinstance(a, Instance) or isinstance(b, Instance):
             return False
+        # model objects that define their own equality (ropes, structured datagrams, time values ...)
+        pe = getattr(a, "py_eq", None)
+        if pe is not None:
+            return pe(self, b)
+        pe = getattr(b, "py_eq", None)
+        if pe is not None:
+            return pe(self, a)
         if isinstance(a, (BytesVal, ABytes)):
             return a.eq(b) if isinstance(b, (BytesVal, ABytes, bytes, bytearray)) else False
         if isinstance(b, (BytesVal, ABytes)):
